@@ -3,7 +3,7 @@ import Cx.Model.OnePass
   Cx.Proofs.OnePassBuild — the builder of the one-pass DFA (`buildState` with its memo map, state numbering and
   flat transition table) computes, for every NFA root it visits, exactly the row that the closure of that root
   prescribes; hence `search` on the built table is the numbering-free run `arun` over NFA roots
-  (`search_eq_arun`).  DFA state 0 is the anchored start and doubles as `DeadState`.
+  (`search_eq_orun`).  DFA state 0 is the dead state; the states of NFA roots are numbered from 1.
 -/
 namespace Cx.Caps.OnePass
 open Cx Cx.Nfa
@@ -117,34 +117,65 @@ theorem nodup_map_inj {α β : Type} (f : α → β) : ∀ (l : List α), (l.map
 
 /-! ### invariants of the builder -/
 
+/-- ids handed out so far: `k, k-1, …, 1` -/
+def idsDown : Nat → List Nat
+  | 0 => []
+  | k+1 => (k+1) :: idsDown k
+
+theorem mem_idsDown {k x : Nat} : x ∈ idsDown k ↔ 1 ≤ x ∧ x ≤ k := by
+  induction k with
+  | zero => simp [idsDown]; omega
+  | succ k ih => simp only [idsDown, List.mem_cons, ih]; omega
+
+theorem nodup_idsDown (k : Nat) : (idsDown k).Nodup := by
+  induction k with
+  | zero => exact List.nodup_nil
+  | succ k ih =>
+    simp only [idsDown, List.nodup_cons]
+    refine ⟨?_, ih⟩
+    intro hm
+    have := (mem_idsDown.mp hm).2
+    omega
+
 structure WF (stride : Nat) (B : Builder) : Prop where
   flags : B.matchFlags.size = B.numStates
+  eflags : B.endFlags.size = B.numStates
   mslots : B.matchSlots.size = B.numStates
   table : B.table.size = B.numStates * stride
-  ids : B.nfaToDFA.map (·.2) = (List.range B.numStates).reverse
+  ids : B.nfaToDFA.map (·.2) = idsDown (B.numStates - 1)
   keys : (B.nfaToDFA.map (·.1)).Nodup
   bound : B.numStates ≤ maxStateID + 1
+  pos : 1 ≤ B.numStates
 
 theorem WF.id_lt {stride : Nat} {B : Builder} (w : WF stride B) {r sid : Nat} (h : (r, sid) ∈ B.nfaToDFA) :
     sid < B.numStates := by
   have : sid ∈ B.nfaToDFA.map (·.2) := List.mem_map.mpr ⟨(r, sid), h, rfl⟩
   rw [w.ids] at this
-  simpa using this
+  have := mem_idsDown.mp this
+  have := w.pos
+  omega
+
+theorem WF.id_pos {stride : Nat} {B : Builder} (w : WF stride B) {r sid : Nat} (h : (r, sid) ∈ B.nfaToDFA) :
+    1 ≤ sid := by
+  have : sid ∈ B.nfaToDFA.map (·.2) := List.mem_map.mpr ⟨(r, sid), h, rfl⟩
+  rw [w.ids] at this
+  exact (mem_idsDown.mp this).1
 
 theorem WF.ids_inj {stride : Nat} {B : Builder} (w : WF stride B) {r1 r2 sid : Nat} (h1 : (r1, sid) ∈ B.nfaToDFA)
     (h2 : (r2, sid) ∈ B.nfaToDFA) : r1 = r2 := by
-  have hnd : (B.nfaToDFA.map (·.2)).Nodup := by rw [w.ids]; exact nodup_rev_range _
+  have hnd : (B.nfaToDFA.map (·.2)).Nodup := by rw [w.ids]; exact nodup_idsDown _
   have := nodup_map_inj (·.2) _ hnd _ _ h1 h2 rfl
   exact congrArg Prod.fst this
 
 /-- the row of DFA state `sid` is the one the closure of `root` prescribes (targets by their DFA ids) -/
 def RowOK (N : NFA) (cls : Array Nat) (stride : Nat) (B : Builder) (root sid : Nat) : Prop :=
-  ∃ c m mm bt, epsClosure N root = some (c, m, mm) ∧ byteTrans N cls c = some bt ∧
-    B.matchFlags.getD sid false = m ∧ B.matchSlots.getD sid 0 = (if m then mm else 0) ∧
+  ∃ c bt, epsClosure N root = some c ∧ byteTrans N cls c.entries = some bt ∧
+    B.matchFlags.getD sid false = c.matched ∧ B.endFlags.getD sid false = (c.matched && c.matchEnd) ∧
+    B.matchSlots.getD sid 0 = (if c.matched then c.matchMask else 0) ∧
     ∀ cl, cl < stride →
       (bt.getD cl none = none → B.table.getD (sid * stride + cl) deadWord = deadWord) ∧
-      (∀ tgt sl, bt.getD cl none = some (tgt, sl) → ∃ id, lookup B.nfaToDFA tgt = some id ∧
-        B.table.getD (sid * stride + cl) deadWord = Trans.encode ⟨id, false, sl⟩)
+      (∀ tgt sl mw, bt.getD cl none = some (tgt, sl, mw) → ∃ id, lookup B.nfaToDFA tgt = some id ∧
+        B.table.getD (sid * stride + cl) deadWord = Trans.encode ⟨id, mw, sl⟩)
 
 /-- every finished state (root not in the in-progress set `P`) has its row -/
 def Done (N : NFA) (cls : Array Nat) (stride : Nat) (B : Builder) (P : Nat → Prop) : Prop :=
@@ -156,23 +187,27 @@ structure Ext (B B' : Builder) : Prop where
   num : B.numStates ≤ B'.numStates
   table : ∀ i, i < B.table.size → B'.table.getD i deadWord = B.table.getD i deadWord
   flags : ∀ i, i < B.matchFlags.size → B'.matchFlags.getD i false = B.matchFlags.getD i false
+  eflags : ∀ i, i < B.endFlags.size → B'.endFlags.getD i false = B.endFlags.getD i false
   mslots : ∀ i, i < B.matchSlots.size → B'.matchSlots.getD i 0 = B.matchSlots.getD i 0
   tsize : B.table.size ≤ B'.table.size
 
 theorem Ext.refl (B : Builder) : Ext B B :=
-  ⟨⟨[], rfl⟩, Nat.le_refl _, fun _ _ => rfl, fun _ _ => rfl, fun _ _ => rfl, Nat.le_refl _⟩
+  ⟨⟨[], rfl⟩, Nat.le_refl _, fun _ _ => rfl, fun _ _ => rfl, fun _ _ => rfl, fun _ _ => rfl, Nat.le_refl _⟩
 
 theorem Ext.trans {A B C : Builder} {stride : Nat} (wA : WF stride A) (wB : WF stride B) (h1 : Ext A B) (h2 : Ext B C) :
     Ext A C := by
   obtain ⟨n1, e1⟩ := h1.map
   obtain ⟨n2, e2⟩ := h2.map
-  refine ⟨⟨n2 ++ n1, by rw [e2, e1, List.append_assoc]⟩, Nat.le_trans h1.num h2.num, ?_, ?_, ?_,
+  refine ⟨⟨n2 ++ n1, by rw [e2, e1, List.append_assoc]⟩, Nat.le_trans h1.num h2.num, ?_, ?_, ?_, ?_,
     Nat.le_trans h1.tsize h2.tsize⟩
   · intro i hi
     rw [h2.table i (Nat.lt_of_lt_of_le hi h1.tsize), h1.table i hi]
   · intro i hi
     have : i < B.matchFlags.size := by rw [wB.flags]; rw [wA.flags] at hi; exact Nat.lt_of_lt_of_le hi h1.num
     rw [h2.flags i this, h1.flags i hi]
+  · intro i hi
+    have : i < B.endFlags.size := by rw [wB.eflags]; rw [wA.eflags] at hi; exact Nat.lt_of_lt_of_le hi h1.num
+    rw [h2.eflags i this, h1.eflags i hi]
   · intro i hi
     have : i < B.matchSlots.size := by rw [wB.mslots]; rw [wA.mslots] at hi; exact Nat.lt_of_lt_of_le hi h1.num
     rw [h2.mslots i this, h1.mslots i hi]
@@ -188,9 +223,10 @@ theorem Ext.lookup {B B' : Builder} {stride : Nat} (h : Ext B B') (w' : WF strid
 theorem RowOK.ext {N : NFA} {cls : Array Nat} {stride : Nat} {B B' : Builder} {r sid : Nat}
     (hr : RowOK N cls stride B r sid) (w : WF stride B) (w' : WF stride B') (he : Ext B B') (hs : sid < B.numStates) :
     RowOK N cls stride B' r sid := by
-  obtain ⟨c, m, mm, bt, h1, h2, h3, h4, h5⟩ := hr
-  refine ⟨c, m, mm, bt, h1, h2, ?_, ?_, ?_⟩
+  obtain ⟨c, bt, h1, h2, h3, h3e, h4, h5⟩ := hr
+  refine ⟨c, bt, h1, h2, ?_, ?_, ?_, ?_⟩
   · rw [he.flags sid (by rw [w.flags]; exact hs)]; exact h3
+  · rw [he.eflags sid (by rw [w.eflags]; exact hs)]; exact h3e
   · rw [he.mslots sid (by rw [w.mslots]; exact hs)]; exact h4
   · intro cl hcl
     have hidx : sid * stride + cl < B.table.size := by
@@ -200,8 +236,8 @@ theorem RowOK.ext {N : NFA} {cls : Array Nat} {stride : Nat} {B B' : Builder} {r
       omega
     obtain ⟨a1, a2⟩ := h5 cl hcl
     refine ⟨fun hn => by rw [he.table _ hidx]; exact a1 hn, ?_⟩
-    intro tgt sl hb
-    obtain ⟨id, b1, b2⟩ := a2 tgt sl hb
+    intro tgt sl mw hb
+    obtain ⟨id, b1, b2⟩ := a2 tgt sl mw hb
     exact ⟨id, he.lookup w' b1, by rw [he.table _ hidx]; exact b2⟩
 
 
@@ -211,9 +247,9 @@ def BtOK (stride : Nat) (bt : BT) : Prop := ∀ cl, stride ≤ cl → bt.getD cl
 
 def ClsOK (cls : Array Nat) (stride : Nat) : Prop := ∀ b, cls.getD b 0 < stride
 
-theorem addByte_btOK {cls : Array Nat} {stride : Nat} (hc : ClsOK cls stride) (next slots : Nat) (bt : Option BT)
+theorem addByte_btOK {cls : Array Nat} {stride : Nat} (hc : ClsOK cls stride) (info : Info) (bt : Option BT)
     (byte : Nat) (hb : ∀ b, bt = some b → BtOK stride b) :
-    ∀ b, addByte cls next slots bt byte = some b → BtOK stride b := by
+    ∀ b, addByte cls info bt byte = some b → BtOK stride b := by
   intro b hr
   unfold addByte at hr
   cases bt with
@@ -241,27 +277,33 @@ theorem foldl_btOK {α : Type} {stride : Nat} (f : Option BT → α → Option B
   | nil => intro bt h b hb; exact h b hb
   | cons x L ih => intro bt h b hb; exact ih (f bt x) (hf bt x h) b hb
 
-theorem addRange_btOK {cls : Array Nat} {stride : Nat} (hc : ClsOK cls stride) (lo hi next slots : Nat)
+theorem addRange_btOK {cls : Array Nat} {stride : Nat} (hc : ClsOK cls stride) (lo hi : Nat) (info : Info)
     (bt : Option BT) (hb : ∀ b, bt = some b → BtOK stride b) :
-    ∀ b, addRange cls lo hi next slots bt = some b → BtOK stride b := by
+    ∀ b, addRange cls lo hi info bt = some b → BtOK stride b := by
   unfold addRange
-  exact foldl_btOK _ (fun bt x h => addByte_btOK hc next slots bt x h) _ bt hb
+  exact foldl_btOK _ (fun bt x h => addByte_btOK hc info bt x h) _ bt hb
 
-theorem byteTrans_btOK {N : NFA} {cls : Array Nat} {stride : Nat} (hc : ClsOK cls stride) (c : List Entry) (bt : BT)
+theorem stepEntry_btOK {N : NFA} {cls : Array Nat} {stride : Nat} (hc : ClsOK cls stride) (bt0 : Option BT) (e : CEntry)
+    (h0 : ∀ b, bt0 = some b → BtOK stride b) : ∀ b, stepEntry N cls bt0 e = some b → BtOK stride b := by
+  intro b hb
+  unfold stepEntry at hb
+  split at hb
+  · exact h0 b hb
+  · split at hb
+    · exact addRange_btOK hc _ _ _ bt0 h0 b hb
+    · exact foldl_btOK _ (fun bt x h => addRange_btOK hc _ _ _ bt h) _ bt0 h0 b hb
+    · exact h0 b hb
+
+theorem byteTrans_btOK {N : NFA} {cls : Array Nat} {stride : Nat} (hc : ClsOK cls stride) (c : List CEntry) (bt : BT)
     (h : byteTrans N cls c = some bt) : BtOK stride bt := by
   unfold byteTrans at h
-  refine foldl_btOK _ ?_ c _ ?_ bt h
-  · intro bt0 e h0 b hb
-    split at hb
-    · exact addRange_btOK hc _ _ _ _ bt0 h0 b hb
-    · exact foldl_btOK _ (fun bt x h => addRange_btOK hc _ _ _ _ bt h) _ bt0 h0 b hb
-    · exact h0 b hb
-  · intro b hb
-    simp only [Option.some.injEq] at hb
-    subst hb
-    intro cl _
-    simp only [Array.getD_eq_getD_getElem?, Array.getElem?_replicate]
-    split <;> rfl
+  refine foldl_btOK _ (fun bt0 e h0 => stepEntry_btOK hc bt0 e h0) c _ ?_ bt h
+  intro b hb
+  simp only [Option.some.injEq] at hb
+  subst hb
+  intro cl _
+  simp only [Array.getD_eq_getD_getElem?, Array.getElem?_replicate]
+  split <;> rfl
 
 
 theorem row_idx_inj {a b st i j : Nat} (he : a * st + i = b * st + j) (hi : i < st) (hj : j < st) :
@@ -277,16 +319,17 @@ theorem row_idx_inj {a b st i j : Nat} (he : a * st + i = b * st + j) (hi : i < 
 /-- one entry of the row under construction (the row starts at `startIdx`) -/
 def EntryOK (bt : BT) (startIdx : Nat) (B : Builder) (cl : Nat) : Prop :=
   (bt.getD cl none = none → B.table.getD (startIdx + cl) deadWord = deadWord) ∧
-  (∀ tgt sl, bt.getD cl none = some (tgt, sl) → ∃ id, lookup B.nfaToDFA tgt = some id ∧
-    B.table.getD (startIdx + cl) deadWord = Trans.encode ⟨id, false, sl⟩)
+  (∀ tgt sl mw, bt.getD cl none = some (tgt, sl, mw) → ∃ id, lookup B.nfaToDFA tgt = some id ∧
+    B.table.getD (startIdx + cl) deadWord = Trans.encode ⟨id, mw, sl⟩)
 
 structure LoopInv (N : NFA) (cls : Array Nat) (stride : Nat) (P' : Nat → Prop) (B : Builder) (bt : BT)
-    (root sid : Nat) (isMatch : Bool) (mval : Nat) (S : Nat → Prop) (Bk : Builder) : Prop where
+    (root sid : Nat) (isMatch isEnd : Bool) (mval : Nat) (S : Nat → Prop) (Bk : Builder) : Prop where
   wf : WF stride Bk
   ext : Ext B Bk
   mem : (root, sid) ∈ Bk.nfaToDFA
   done : Done N cls stride Bk P'
   flag : Bk.matchFlags.getD sid false = isMatch
+  eflag : Bk.endFlags.getD sid false = isEnd
   mslot : Bk.matchSlots.getD sid 0 = mval
   rowsz : B.table.size + stride ≤ Bk.table.size
   row : ∀ cl, cl < stride → (S cl → EntryOK bt B.table.size Bk cl) ∧
@@ -306,11 +349,11 @@ theorem foldl_rowStep_none (rec : Builder → Nat → Option (Builder × Nat)) (
 
 theorem rowLoop_spec {N : NFA} {cls : Array Nat} {stride : Nat} {clsL : List Nat} {fuel : Nat} (IH : Spec N cls stride clsL fuel)
     {P : Nat → Prop} {B : Builder} (wB : WF stride B) (hP : ∀ r, P r → ∃ s, (r, s) ∈ B.nfaToDFA)
-    {bt : BT} (hbt : BtOK stride bt) {root sid : Nat} (hsid : sid = B.numStates) {isMatch : Bool} {mval : Nat} :
+    {bt : BT} (hbt : BtOK stride bt) {root sid : Nat} (hsid : sid = B.numStates) {isMatch isEnd : Bool} {mval : Nat} :
     ∀ (L : List Nat) (S : Nat → Prop) (Bk Bf : Builder),
       L.foldl (rowStep (buildState N cls stride clsL fuel) B.table.size bt) (some Bk) = some Bf →
-      LoopInv N cls stride (fun r => P r ∨ r = root) B bt root sid isMatch mval S Bk →
-      LoopInv N cls stride (fun r => P r ∨ r = root) B bt root sid isMatch mval (fun cl => S cl ∨ cl ∈ L) Bf := by
+      LoopInv N cls stride (fun r => P r ∨ r = root) B bt root sid isMatch isEnd mval S Bk →
+      LoopInv N cls stride (fun r => P r ∨ r = root) B bt root sid isMatch isEnd mval (fun cl => S cl ∨ cl ∈ L) Bf := by
   intro L
   induction L with
   | nil =>
@@ -330,7 +373,7 @@ theorem rowLoop_spec {N : NFA} {cls : Array Nat} {stride : Nat} {clsL : List Nat
       have hstep : rowStep (buildState N cls stride clsL fuel) B.table.size bt (some Bk) x = some Bk := by
         simp only [rowStep, hb]
       rw [hstep] at hf
-      refine ih _ Bk Bf hf ⟨inv.wf, inv.ext, inv.mem, inv.done, inv.flag, inv.mslot, inv.rowsz, ?_⟩
+      refine ih _ Bk Bf hf ⟨inv.wf, inv.ext, inv.mem, inv.done, inv.flag, inv.eflag, inv.mslot, inv.rowsz, ?_⟩
       intro cl hcl
       obtain ⟨r1, r2⟩ := inv.row cl hcl
       refine ⟨?_, fun hn => r2 (fun h => hn (Or.inl h))⟩
@@ -338,9 +381,9 @@ theorem rowLoop_spec {N : NFA} {cls : Array Nat} {stride : Nat} {clsL : List Nat
       · exact r1 h1
       · by_cases hs : S cl
         · exact r1 hs
-        · exact ⟨fun _ => r2 hs, fun tgt sl he => by rw [hb] at he; cases he⟩
+        · exact ⟨fun _ => r2 hs, fun tgt sl mw he => by rw [hb] at he; cases he⟩
     | some ts =>
-      obtain ⟨tgt, sl⟩ := ts
+      obtain ⟨tgt, sl, mw⟩ := ts
       have hxlt : x < stride := by
         cases Nat.lt_or_ge x stride with
         | inl h => exact h
@@ -361,24 +404,24 @@ theorem rowLoop_spec {N : NFA} {cls : Array Nat} {stride : Nat} {clsL : List Nat
         have hidx : B.table.size + x < Bk1.table.size := by
           have := inv.rowsz; have := e1.tsize; omega
         have hstep : rowStep (buildState N cls stride clsL fuel) B.table.size bt (some Bk) x =
-            some { Bk1 with table := Bk1.table.setIfInBounds (B.table.size + x) (Trans.encode ⟨id, false, sl⟩) } := by
+            some { Bk1 with table := Bk1.table.setIfInBounds (B.table.size + x) (Trans.encode ⟨id, mw, sl⟩) } := by
           simp only [rowStep, hb, hrec]
           rw [if_neg (by omega)]
         rw [hstep] at hf
         have hstart : B.table.size = sid * stride := by rw [wB.table, hsid]
         have hsidlt : sid < Bk.numStates := inv.wf.id_lt inv.mem
         -- the new builder
-        have w2 : WF stride { Bk1 with table := Bk1.table.setIfInBounds (B.table.size + x) (Trans.encode ⟨id, false, sl⟩) } :=
-          ⟨w1.flags, w1.mslots, by simpa using w1.table, w1.ids, w1.keys, w1.bound⟩
+        have w2 : WF stride { Bk1 with table := Bk1.table.setIfInBounds (B.table.size + x) (Trans.encode ⟨id, mw, sl⟩) } :=
+          ⟨w1.flags, w1.eflags, w1.mslots, by simpa using w1.table, w1.ids, w1.keys, w1.bound, w1.pos⟩
         have hsid1 : (root, sid) ∈ Bk1.nfaToDFA := e1.mem inv.mem
         have hrow_ne : ∀ s cl', s ≠ sid → cl' < stride → B.table.size + x ≠ s * stride + cl' := by
           intro s cl' hne hcl' he
           rw [hstart] at he
           exact hne (row_idx_inj he.symm hcl' hxlt).1
-        refine ih _ _ Bf hf ⟨w2, ?_, hsid1, ?_, ?_, ?_, ?_, ?_⟩
+        refine ih _ _ Bf hf ⟨w2, ?_, hsid1, ?_, ?_, ?_, ?_, ?_, ?_⟩
         · -- Ext B Bk2
           have e01 := Ext.trans wB inv.wf inv.ext e1
-          refine ⟨e01.map, e01.num, ?_, e01.flags, e01.mslots, by simpa using e01.tsize⟩
+          refine ⟨e01.map, e01.num, ?_, e01.flags, e01.eflags, e01.mslots, by simpa using e01.tsize⟩
           intro i hi
           simp only
           rw [getD_set_other' _ _ _ _ _ (by omega), e01.table i hi]
@@ -389,14 +432,16 @@ theorem rowLoop_spec {N : NFA} {cls : Array Nat} {stride : Nat} {clsL : List Nat
             intro he
             subst he
             exact hnp (Or.inr (w1.ids_inj hrs hsid1))
-          obtain ⟨c, m, mm, bt', q1, q2, q3, q4, q5⟩ := hr1
-          refine ⟨c, m, mm, bt', q1, q2, q3, q4, ?_⟩
+          obtain ⟨c, bt', q1, q2, q3, q3e, q4, q5⟩ := hr1
+          refine ⟨c, bt', q1, q2, q3, q3e, q4, ?_⟩
           intro cl' hcl'
           simp only
           rw [getD_set_other' _ _ _ _ _ (hrow_ne s cl' hne hcl')]
           exact q5 cl' hcl'
         · show Bk1.matchFlags.getD sid false = isMatch
           rw [e1.flags sid (by rw [inv.wf.flags]; exact hsidlt)]; exact inv.flag
+        · show Bk1.endFlags.getD sid false = isEnd
+          rw [e1.eflags sid (by rw [inv.wf.eflags]; exact hsidlt)]; exact inv.eflag
         · show Bk1.matchSlots.getD sid 0 = mval
           rw [e1.mslots sid (by rw [inv.wf.mslots]; exact hsidlt)]; exact inv.mslot
         · show B.table.size + stride ≤ (Bk1.table.setIfInBounds _ _).size
@@ -407,19 +452,19 @@ theorem rowLoop_spec {N : NFA} {cls : Array Nat} {stride : Nat} {clsL : List Nat
           by_cases hx : cl = x
           · subst hx
             refine ⟨fun _ => ⟨(fun hn => by rw [hb] at hn; cases hn), ?_⟩, fun hn => absurd (Or.inr rfl) hn⟩
-            intro tgt' sl' he
+            intro tgt' sl' mw' he
             rw [hb] at he
             simp only [Option.some.injEq, Prod.mk.injEq] at he
-            obtain ⟨rfl, rfl⟩ := he
+            obtain ⟨rfl, rfl, rfl⟩ := he
             exact ⟨id, l1, getD_set_self' _ _ _ _ hidx⟩
           · have hne : B.table.size + x ≠ B.table.size + cl := by omega
             refine ⟨?_, ?_⟩
             · rintro (hs | hs)
               · obtain ⟨t1, t2⟩ := r1 hs
-                refine ⟨fun hn => ?_, fun tgt' sl' he => ?_⟩
+                refine ⟨fun hn => ?_, fun tgt' sl' mw' he => ?_⟩
                 · show (Bk1.table.setIfInBounds _ _).getD _ _ = _
                   rw [getD_set_other' _ _ _ _ _ hne, e1.table _ hcl_lt]; exact t1 hn
-                · obtain ⟨id', u1, u2⟩ := t2 tgt' sl' he
+                · obtain ⟨id', u1, u2⟩ := t2 tgt' sl' mw' he
                   refine ⟨id', e1.lookup w1 u1, ?_⟩
                   show (Bk1.table.setIfInBounds _ _).getD _ _ = _
                   rw [getD_set_other' _ _ _ _ _ hne, e1.table _ hcl_lt]; exact u2
@@ -429,6 +474,34 @@ theorem rowLoop_spec {N : NFA} {cls : Array Nat} {stride : Nat} {clsL : List Nat
               rw [getD_set_other' _ _ _ _ _ hne, e1.table _ hcl_lt]
               exact r2 (fun h => hn (Or.inl h))
 
+
+theorem idsDown_succ_of_pos {k : Nat} (hk : 1 ≤ k) : idsDown (k + 1 - 1) = k :: idsDown (k - 1) := by
+  obtain ⟨j, rfl⟩ : ∃ j, k = j + 1 := ⟨k - 1, by omega⟩
+  simp [idsDown]
+
+/-- the builder right after `addState` and the memo entry -/
+theorem wf_alloc {stride : Nat} {B : Builder} (wB : WF stride B) (root : Nat) (m me : Bool) (mm : Nat)
+    (hkey : ∀ v, (root, v) ∉ B.nfaToDFA) (hbound : ¬ B.numStates > maxStateID) :
+    WF stride { addState B stride m me mm with nfaToDFA := (root, B.numStates) :: B.nfaToDFA } := by
+  refine ⟨by simp [addState, wB.flags], by simp [addState, wB.eflags], by simp [addState, wB.mslots], ?_, ?_, ?_, ?_, ?_⟩
+  · simp only [addState, Array.size_append, Array.size_replicate, wB.table, Nat.add_mul, Nat.one_mul]
+  · simp only [addState, List.map_cons, wB.ids]
+    exact (idsDown_succ_of_pos wB.pos).symm
+  · simp only [addState, List.map_cons, List.nodup_cons]
+    refine ⟨?_, wB.keys⟩
+    intro hmem
+    obtain ⟨⟨k, v⟩, h1, h2⟩ := List.mem_map.mp hmem
+    simp only at h2
+    subst h2
+    exact hkey v h1
+  · simp only [addState]; omega
+  · simp only [addState]; omega
+
+theorem ext_alloc {stride : Nat} (B : Builder) (root : Nat) (m me : Bool) (mm : Nat) :
+    Ext B { addState B stride m me mm with nfaToDFA := (root, B.numStates) :: B.nfaToDFA } :=
+  ⟨⟨[(root, B.numStates)], rfl⟩, Nat.le_succ _, fun i hi => getD_append_left _ _ _ _ hi,
+    fun i hi => getD_push_lt _ _ _ _ hi, fun i hi => getD_push_lt _ _ _ _ hi, fun i hi => getD_push_lt _ _ _ _ hi,
+    by simp [addState]⟩
 
 theorem spec_all (N : NFA) (cls : Array Nat) (stride : Nat) (hc : ClsOK cls stride) (clsL : List Nat)
     (hall : ∀ cl, cl < stride → cl ∈ clsL) : ∀ fuel, Spec N cls stride clsL fuel := by
@@ -449,14 +522,13 @@ theorem spec_all (N : NFA) (cls : Array Nat) (stride : Nat) (hc : ClsOK cls stri
       simp only at hb
       cases hcl : epsClosure N root with
       | none => rw [hcl] at hb; cases hb
-      | some res =>
-        obtain ⟨c, m, mm⟩ := res
+      | some c =>
         rw [hcl] at hb
         simp only at hb
         split at hb
         · cases hb
         · rename_i hbound
-          cases hbt : byteTrans N cls c with
+          cases hbt : byteTrans N cls c.entries with
           | none => rw [hbt] at hb; cases hb
           | some bt =>
             rw [hbt] at hb
@@ -467,47 +539,28 @@ theorem spec_all (N : NFA) (cls : Array Nat) (stride : Nat) (hc : ClsOK cls stri
               simp only [Option.some.injEq, Prod.mk.injEq] at hb
               obtain ⟨rfl, rfl⟩ := hb
               have hkey : ∀ v, (root, v) ∉ B.nfaToDFA := lookup_none_not_mem hl
-              -- the builder with the new state allocated
-              have w0 : WF stride
-                  { numStates := B.numStates + 1, table := B.table ++ Array.replicate stride deadWord,
-                    matchFlags := B.matchFlags.push m, matchSlots := B.matchSlots.push (if m = true then mm else 0),
+              have w0 := wf_alloc wB root c.matched c.matchEnd c.matchMask hkey hbound
+              have e0 := ext_alloc (stride := stride) B root c.matched c.matchEnd c.matchMask
+              have inv0 : LoopInv N cls stride (fun r => P r ∨ r = root) B bt root B.numStates c.matched
+                  (c.matched && c.matchEnd) (if c.matched = true then c.matchMask else 0) (fun _ => False)
+                  { addState B stride c.matched c.matchEnd c.matchMask with
                     nfaToDFA := (root, B.numStates) :: B.nfaToDFA } := by
-                refine ⟨by simp [wB.flags], by simp [wB.mslots], ?_, ?_, ?_, by simp only; omega⟩
-                · simp only [Array.size_append, Array.size_replicate, wB.table, Nat.add_mul, Nat.one_mul]
-                · simp only [List.map_cons, wB.ids, List.range_succ, List.reverse_append, List.reverse_cons,
-                    List.reverse_nil, List.nil_append, List.cons_append]
-                · simp only [List.map_cons, List.nodup_cons]
-                  refine ⟨?_, wB.keys⟩
-                  intro hmem
-                  obtain ⟨⟨k, v⟩, h1, h2⟩ := List.mem_map.mp hmem
-                  simp only at h2
-                  subst h2
-                  exact hkey v h1
-              have e0 : Ext B
-                  { numStates := B.numStates + 1, table := B.table ++ Array.replicate stride deadWord,
-                    matchFlags := B.matchFlags.push m, matchSlots := B.matchSlots.push (if m = true then mm else 0),
-                    nfaToDFA := (root, B.numStates) :: B.nfaToDFA } :=
-                ⟨⟨[(root, B.numStates)], rfl⟩, Nat.le_succ _, fun i hi => getD_append_left _ _ _ _ hi,
-                  fun i hi => getD_push_lt _ _ _ _ hi, fun i hi => getD_push_lt _ _ _ _ hi, by simp⟩
-              have inv0 : LoopInv N cls stride (fun r => P r ∨ r = root) B bt root B.numStates m
-                  (if m = true then mm else 0) (fun _ => False)
-                  { numStates := B.numStates + 1, table := B.table ++ Array.replicate stride deadWord,
-                    matchFlags := B.matchFlags.push m, matchSlots := B.matchSlots.push (if m = true then mm else 0),
-                    nfaToDFA := (root, B.numStates) :: B.nfaToDFA } := by
-                refine ⟨w0, e0, List.mem_cons_self, ?_, ?_, ?_, by simp, ?_⟩
+                refine ⟨w0, e0, List.mem_cons_self, ?_, ?_, ?_, ?_, by simp [addState], ?_⟩
                 · intro r s hrs hnp
                   rcases List.mem_cons.mp hrs with h1 | h1
                   · simp only [Prod.mk.injEq] at h1
                     exact absurd (Or.inr h1.1) hnp
                   · exact (dB r s h1 (fun hp => hnp (Or.inl hp))).ext wB w0 e0 (wB.id_lt h1)
-                · show (B.matchFlags.push m).getD B.numStates false = m
+                · show (B.matchFlags.push c.matched).getD B.numStates false = c.matched
                   rw [← wB.flags]; exact getD_push_eq _ _ _
+                · show (B.endFlags.push _).getD B.numStates false = _
+                  rw [← wB.eflags]; exact getD_push_eq _ _ _
                 · show (B.matchSlots.push _).getD B.numStates 0 = _
                   rw [← wB.mslots]; exact getD_push_eq _ _ _
                 · intro cl hcl
                   refine ⟨fun hf => hf.elim, fun _ => ?_⟩
                   exact getD_append_replicate _ _ _ _ _ (by omega) (by omega)
-              have invf := rowLoop_spec ih wB hP (byteTrans_btOK hc c bt hbt) rfl clsL _ _ _ hfold inv0
+              have invf := rowLoop_spec ih wB hP (byteTrans_btOK hc c.entries bt hbt) rfl clsL _ _ _ hfold inv0
               refine ⟨invf.wf, invf.ext, lookup_of_mem invf.wf.keys invf.mem, ?_⟩
               intro r s hrs hnp
               by_cases hr : r = root
@@ -517,7 +570,7 @@ theorem spec_all (N : NFA) (cls : Array Nat) (stride : Nat) (hc : ClsOK cls stri
                 rw [h1] at h2
                 simp only [Option.some.injEq] at h2
                 subst h2
-                refine ⟨c, m, mm, bt, hcl, hbt, invf.flag, invf.mslot, ?_⟩
+                refine ⟨c, bt, hcl, hbt, invf.flag, invf.eflag, invf.mslot, ?_⟩
                 intro cl hcl'
                 have hS : (False ∨ cl ∈ clsL) := Or.inr (hall cl hcl')
                 have := (invf.row cl hcl').1 hS
@@ -603,28 +656,25 @@ theorem clsOK_classTable (N : NFA) : ClsOK (classTable N) (nextPow2 (alphabetLen
 
 /-! ### the 64-bit transition word -/
 
-theorem wNext_encode (id sl : Nat) (hid : id < 2^21) : wNext (Trans.encode ⟨id, false, sl⟩) = id := by
+theorem wNext_encode (id sl : Nat) (mw : Bool) (hid : id < 2^21) : wNext (Trans.encode ⟨id, mw, sl⟩) = id := by
   unfold wNext Trans.encode
-  simp only [Bool.false_eq_true, ↓reduceIte, Nat.add_zero]
   have hs : sl % 2^32 < 2^32 := Nat.mod_lt _ (by decide)
   rw [Nat.mod_eq_of_lt hid]
-  simp only [Nat.reducePow] at hs hid ⊢
-  omega
+  cases mw <;> simp only [Bool.false_eq_true, ↓reduceIte, Nat.add_zero, Nat.reducePow] at hs hid ⊢ <;> omega
 
-theorem wMatchWins_encode (id sl : Nat) : wMatchWins (Trans.encode ⟨id, false, sl⟩) = false := by
+theorem wMatchWins_encode (id sl : Nat) (mw : Bool) : wMatchWins (Trans.encode ⟨id, mw, sl⟩) = mw := by
   unfold wMatchWins Trans.encode
-  simp only [Bool.false_eq_true, ↓reduceIte, Nat.add_zero]
   have hs : sl % 2^32 < 2^32 := Nat.mod_lt _ (by decide)
-  simp only [Nat.reducePow] at hs ⊢
-  simp only [decide_eq_false_iff_not]
-  omega
+  cases mw
+  · simp only [Bool.false_eq_true, ↓reduceIte, Nat.add_zero, Nat.reducePow, decide_eq_false_iff_not] at hs ⊢
+    omega
+  · simp only [↓reduceIte, Nat.reducePow, decide_eq_true_eq] at hs ⊢
+    omega
 
-theorem wSlots_encode (id sl : Nat) : wSlots (Trans.encode ⟨id, false, sl⟩) = sl % 2^32 := by
+theorem wSlots_encode (id sl : Nat) (mw : Bool) : wSlots (Trans.encode ⟨id, mw, sl⟩) = sl % 2^32 := by
   unfold wSlots Trans.encode
-  simp only [Bool.false_eq_true, ↓reduceIte, Nat.add_zero]
   have hs : sl % 2^32 < 2^32 := Nat.mod_lt _ (by decide)
-  simp only [Nat.reducePow] at hs ⊢
-  omega
+  cases mw <;> simp only [Bool.false_eq_true, ↓reduceIte, Nat.add_zero, Nat.reducePow] at hs ⊢ <;> omega
 
 theorem applyMask_mod (sl pos : Nat) (slots : Slots) : applyMask (sl % 2^32) pos slots = applyMask sl pos slots := by
   unfold applyMask
@@ -649,26 +699,30 @@ theorem wDead_dead : wDead deadWord = true := by decide
 /-! ### `search` on the built table is the numbering-free run -/
 
 theorem run_sim {N : NFA} {cls : Array Nat} {stride : Nat} {b : Builder} (wf : WF stride b)
-    (dn : Done N cls stride b (fun _ => False)) (hstart : lookup b.nfaToDFA N.startAnchored = some 0)
-    (hcls : ClsOK cls stride) (h : Bytes) {T : Table} (hT1 : T.stride = stride) (hT2 : T.table = b.table)
-    (hT3 : T.matchStates = b.matchFlags) (hT4 : T.matchSlots = b.matchSlots) (hT5 : T.classes = cls) :
-    ∀ (fuel pos root id : Nat) (slots : Slots), lookup b.nfaToDFA root = some id →
-      searchLoop T h fuel pos id slots = arun N cls h fuel pos root slots := by
+    (dn : Done N cls stride b (fun _ => False))
+    (hcls : ClsOK cls stride) (h : Bytes) (longest : Bool) {T : Table} (hT1 : T.stride = stride) (hT2 : T.table = b.table)
+    (hT3 : T.matchStates = b.matchFlags) (hT3e : T.endMatches = b.endFlags) (hT4 : T.matchSlots = b.matchSlots)
+    (hT5 : T.classes = cls) :
+    ∀ (fuel pos root id : Nat) (slots : Slots) (best : Option Slots), lookup b.nfaToDFA root = some id →
+      searchLoop T h longest fuel pos id slots best = orun N cls h longest fuel pos root slots best := by
   intro fuel
   induction fuel with
-  | zero => intro pos root id slots _; rfl
+  | zero => intro pos root id slots best _; rfl
   | succ fuel ih =>
-    intro pos root id slots hl
+    intro pos root id slots best hl
     have hmem := lookup_mem hl
-    obtain ⟨c, m, mm, bt, q1, q2, q3, q4, q5⟩ := dn root id hmem (fun hf => hf)
+    obtain ⟨c, bt, q1, q2, q3, q3e, q4, q5⟩ := dn root id hmem (fun hf => hf)
     have hidlt := wf.id_lt hmem
-    rw [searchLoop, arun, q1]
+    rw [searchLoop, orun, q1]
     simp only []
+    have hrec : ∀ p, recordMatch T id p slots =
+        spanSlots p (applyMask (if c.matched = true then c.matchMask else 0) p slots) := by
+      intro p; unfold recordMatch; rw [hT4, q4]
     by_cases hp : pos < h.size
     · rw [if_pos hp, if_pos hp, q2]
       simp only []
       have hcl := hcls (h.at pos)
-      rw [hT5]
+      rw [hT5, hT3, hT3e, q3, q3e, hrec]
       obtain ⟨r1, r2⟩ := q5 _ hcl
       have hidx : id * stride + cls.getD (h.at pos) 0 < b.table.size := by
         rw [wf.table]
@@ -683,81 +737,99 @@ theorem run_sim {N : NFA} {cls : Array Nat} {stride : Nat} {b : Builder} (wf : W
       rw [hget]
       cases hb : bt.getD (cls.getD (h.at pos) 0) none with
       | none =>
-        rw [r1 hb, wDead_dead]
-        rfl
+        rw [r1 hb]
+        simp only [wDead_dead, ↓reduceIte]
+        have : wMatchWins deadWord = false := by decide
+        rw [this]
+        simp
       | some ts =>
-        obtain ⟨tgt, sl⟩ := ts
-        obtain ⟨id', u1, u2⟩ := r2 tgt sl hb
+        obtain ⟨tgt, sl, mw⟩ := ts
+        obtain ⟨id', u1, u2⟩ := r2 tgt sl mw hb
         have hid'lt : id' < 2^21 := by
           have := wf.id_lt (lookup_mem u1)
           have := wf.bound
           simp only [maxStateID] at this
           omega
+        have hid'pos : id' ≠ 0 := by
+          have := wf.id_pos (lookup_mem u1)
+          omega
         rw [u2]
-        simp only [wDead, wNext_encode _ _ hid'lt, wMatchWins_encode, wSlots_encode, applyMask_mod,
-          Bool.false_eq_true, false_and, ↓reduceIte]
-        by_cases hz : tgt = N.startAnchored
-        · subst hz
-          rw [hstart] at u1
-          simp only [Option.some.injEq] at u1
-          subst u1
-          simp
-        · have hne : id' ≠ 0 := by
-            intro he
-            subst he
-            exact hz (wf.ids_inj (lookup_mem u1) (lookup_mem hstart))
-          simp only [hne, decide_false, Bool.false_eq_true, ↓reduceIte, hz]
-          exact ih (pos+1) tgt id' _ u1
-    · rw [if_neg hp, if_neg hp, hT3, hT4, q3, q4]
-      cases m <;> rfl
+        simp only [wDead, wNext_encode _ _ _ hid'lt, wMatchWins_encode, wSlots_encode, applyMask_mod, hid'pos,
+          decide_false, Bool.false_eq_true, ↓reduceIte]
+        split
+        · rfl
+        · exact ih (pos+1) tgt id' _ _ u1
+    · rw [if_neg hp, if_neg hp, hT3, q3, hrec]
 
-theorem buildState_first {N : NFA} {cls : Array Nat} {stride : Nat} {clsL : List Nat} {fuel : Nat} {root : Nat}
-    {b : Builder} {sid : Nat}
-    (hb : buildState N cls stride clsL fuel
-      { numStates := 0, table := #[], matchFlags := #[], matchSlots := #[], nfaToDFA := [] } root = some (b, sid)) :
-    sid = 0 := by
-  cases fuel with
-  | zero => rw [buildState] at hb; cases hb
-  | succ fuel =>
-    rw [buildState] at hb
-    simp only [lookup, List.find?_nil, Option.map_none] at hb
-    split at hb
-    · cases hb
-    · split at hb
-      · cases hb
-      · split at hb
-        · cases hb
-        · split at hb
-          · cases hb
-          · simp only [Option.some.injEq, Prod.mk.injEq] at hb
-            exact hb.2.symm
+theorem wf_init (stride : Nat) : WF stride (addState emptyBuilder stride false false 0) :=
+  ⟨rfl, rfl, rfl, by simp [addState, emptyBuilder], rfl, List.nodup_nil, by simp [addState, emptyBuilder, maxStateID],
+    by simp [addState, emptyBuilder]⟩
 
-theorem wf_init (stride : Nat) :
-    WF stride { numStates := 0, table := #[], matchFlags := #[], matchSlots := #[], nfaToDFA := [] } :=
-  ⟨rfl, rfl, by simp, rfl, List.nodup_nil, by simp [maxStateID]⟩
-
-/-- the DFA that `build` produces computes `arun`: the run over NFA roots, closures and per-class transitions,
-    with the anchored start as the dead state -/
-theorem search_eq_arun {N : NFA} {T : Table} (hb : build N = some T) (h : Bytes) (n : Nat) :
-    search T h n = arunSearch N h n := by
+/-- what a successful `build` went through -/
+theorem build_inv {N : NFA} {T : Table} (hb : build N = some T) :
+    isOnePass N = true ∧ N.states.size ≤ invalidState ∧
+    ∃ b start, buildState N (classTable N) (nextPow2 (alphabetLen N)) (List.range 256) (N.states.size + 2)
+        (addState emptyBuilder (nextPow2 (alphabetLen N)) false false 0) N.startAnchored = some (b, start) ∧
+      T = { stride := nextPow2 (alphabetLen N), table := b.table, startState := start, matchStates := b.matchFlags,
+            endMatches := b.endFlags, matchSlots := b.matchSlots, classes := classTable N } := by
   unfold build at hb
   split at hb
   · cases hb
-  · simp only at hb
+  · rename_i h1
     split at hb
     · cases hb
-    · rename_i b start hbs
-      simp only [Option.some.injEq] at hb
-      subst hb
-      have hst0 := buildState_first hbs
-      subst hst0
-      have hcls := clsOK_classTable N
-      have hspec := spec_all N (classTable N) (nextPow2 (alphabetLen N)) hcls (List.range 256)
-        (by intro cl hcl; have := nextPow2_le (alphabetLen N); simp; omega) (N.states.size + 2)
-        _ N.startAnchored (fun _ => False) b 0 hbs (wf_init _) (fun r s hrs => by simp at hrs)
-        (fun r hr => hr.elim)
-      obtain ⟨w, _, l, d⟩ := hspec
-      unfold search arunSearch
-      exact run_sim w d l hcls h rfl rfl rfl rfl rfl _ _ _ _ _ l
+    · rename_i h2
+      simp only at hb
+      split at hb
+      · cases hb
+      · rename_i b start hbs
+        simp only [Option.some.injEq] at hb
+        refine ⟨by simpa using h1, by omega, b, start, hbs, hb.symm⟩
+
+theorem build_spec {N : NFA} {b : Builder} {start : Nat}
+    (hbs : buildState N (classTable N) (nextPow2 (alphabetLen N)) (List.range 256) (N.states.size + 2)
+        (addState emptyBuilder (nextPow2 (alphabetLen N)) false false 0) N.startAnchored = some (b, start)) :
+    WF (nextPow2 (alphabetLen N)) b ∧ lookup b.nfaToDFA N.startAnchored = some start ∧
+    Done N (classTable N) (nextPow2 (alphabetLen N)) b (fun _ => False) := by
+  have hcls := clsOK_classTable N
+  have hspec := spec_all N (classTable N) (nextPow2 (alphabetLen N)) hcls (List.range 256)
+    (by intro cl hcl; have := nextPow2_le (alphabetLen N); simp; omega) (N.states.size + 2)
+    _ N.startAnchored (fun _ => False) b start hbs (wf_init _)
+    (fun r s hrs => by simp [addState, emptyBuilder] at hrs) (fun r hr => hr.elim)
+  exact ⟨hspec.1, hspec.2.2.1, hspec.2.2.2⟩
+
+/-- the DFA that `build` produces computes `orun`: the run over NFA roots, closures and per-class transitions -/
+theorem searchLoop_eq_orun {N : NFA} {T : Table} (hb : build N = some T) (h : Bytes) (n : Nat) (longest : Bool) :
+    searchLoop T h longest (h.size + 1) 0 T.startState (unset n) none = orunSearch N h n longest := by
+  obtain ⟨_, _, b, start, hbs, rfl⟩ := build_inv hb
+  obtain ⟨w, l, d⟩ := build_spec hbs
+  unfold orunSearch
+  exact run_sim w d (clsOK_classTable N) h longest rfl rfl rfl rfl rfl rfl _ _ _ _ _ _ l
+
+theorem search_eq_orun {N : NFA} {T : Table} (hb : build N = some T) (h : Bytes) (n : Nat) :
+    search T h n = orunSearch N h n false := searchLoop_eq_orun hb h n false
+
+theorem searchLongest_eq_orun {N : NFA} {T : Table} (hb : build N = some T) (h : Bytes) (n : Nat) :
+    searchLongest T h n = orunSearch N h n true := searchLoop_eq_orun hb h n true
+
+/-- the roots that `build` visited: each has a closure and a transition map whose targets were visited too -/
+theorem build_closed {N : NFA} {T : Table} (hb : build N = some T) :
+    ∃ Built : Nat → Prop, Built N.startAnchored ∧
+      ∀ r, Built r → ∃ c bt, epsClosure N r = some c ∧ byteTrans N (classTable N) c.entries = some bt ∧
+        ∀ cl tgt sl mw, bt.getD cl none = some (tgt, sl, mw) → Built tgt := by
+  obtain ⟨_, _, b, start, hbs, rfl⟩ := build_inv hb
+  obtain ⟨w, l, d⟩ := build_spec hbs
+  have hcls := clsOK_classTable N
+  refine ⟨fun r => ∃ id, lookup b.nfaToDFA r = some id, ⟨start, l⟩, ?_⟩
+  rintro r ⟨id, hl⟩
+  obtain ⟨c, bt, q1, q2, _, _, _, q5⟩ := d r id (lookup_mem hl) (fun hf => hf)
+  refine ⟨c, bt, q1, q2, ?_⟩
+  intro cl tgt sl mw hbt
+  have hlt : cl < nextPow2 (alphabetLen N) := by
+    cases Nat.lt_or_ge cl (nextPow2 (alphabetLen N)) with
+    | inl h => exact h
+    | inr h => have := byteTrans_btOK hcls c.entries bt q2 cl h; rw [hbt] at this; cases this
+  obtain ⟨id', u1, _⟩ := (q5 cl hlt).2 tgt sl mw hbt
+  exact ⟨id', u1⟩
 
 end Cx.Caps.OnePass
